@@ -863,3 +863,131 @@ func brokerLossless(p *engine.Program) (bool, string) {
 	}
 	return true, ""
 }
+
+// packetPathStateless: the functions every datagram passes through keep no state of their own —
+// they write no field of the Netceptor object and no package-level variable (the name-hash table
+// is maintained by AddNameHash, the tables they read are maintained elsewhere). A cache, "last
+// notice" record or rate limiter added to this path makes the fate of a packet depend on earlier,
+// unrelated packets.
+func packetPathStateless(p *engine.Program) (bool, string, int) {
+	names := []string{"(*netceptor.Netceptor).handleMessageData", "(*netceptor.Netceptor).forwardMessage", "(*netceptor.Netceptor).sendUnreachable",
+		"(*netceptor.Netceptor).handleUnreachable", "(*netceptor.Netceptor).handlePing", "(*netceptor.Netceptor).dispatchReservedService",
+		"(*netceptor.Netceptor).translateDataFromMessage", "(*netceptor.Netceptor).translateDataToMessage",
+		"(*netceptor.Netceptor).SendMessageWithHopsToLive", "(*netceptor.Netceptor).sendMessage"}
+	nc := p.NamedType("netceptor", "Netceptor")
+	if nc == nil {
+		return false, "type Netceptor not found", 0
+	}
+	ncFields := map[*types.Var]bool{}
+	st := nc.Underlying().(*types.Struct)
+	for i := 0; i < st.NumFields(); i++ {
+		ncFields[st.Field(i)] = true
+	}
+	var bad []string
+	n := 0
+	for _, name := range names {
+		fn := p.Func(name)
+		if fn == nil {
+			return false, "packet path function " + name + " not found", 0
+		}
+		fns := append([]*ssa.Function{fn}, fn.AnonFuncs...)
+		for _, f := range fns {
+			n++
+			for _, b := range f.Blocks {
+				for _, in := range b.Instrs {
+					switch x := in.(type) {
+					case *ssa.Store:
+						if fa, ok := x.Addr.(*ssa.FieldAddr); ok && ncFields[engine.FieldAddrVar(fa)] {
+							bad = append(bad, fmt.Sprintf("%s stores to Netceptor.%s at %s", engine.FuncName(f), engine.FieldAddrVar(fa).Name(), p.Pos(in.Pos())))
+						}
+						if g, ok := x.Addr.(*ssa.Global); ok && g.Pkg != nil && strings.HasPrefix(g.Pkg.Pkg.Path(), engine.ModPath) {
+							bad = append(bad, fmt.Sprintf("%s stores to package variable %s at %s", engine.FuncName(f), g.Name(), p.Pos(in.Pos())))
+						}
+					case *ssa.MapUpdate:
+						if fl, _ := engine.FieldOfLoad(x.Map); fl != nil && ncFields[fl] {
+							bad = append(bad, fmt.Sprintf("%s updates map Netceptor.%s at %s", engine.FuncName(f), fl.Name(), p.Pos(in.Pos())))
+						}
+					case ssa.CallInstruction:
+						// methods with pointer receiver on a Netceptor field of sync.Map / similar containers: Store/LoadOrStore/Delete
+						c := x.Common()
+						if o := engine.CalleeObj(c); o != nil && len(c.Args) > 0 {
+							switch o.Name() {
+							case "Store", "LoadOrStore", "Delete", "Swap", "CompareAndSwap", "Add":
+								if fa, ok := c.Args[0].(*ssa.FieldAddr); ok && ncFields[engine.FieldAddrVar(fa)] {
+									bad = append(bad, fmt.Sprintf("%s calls %s on Netceptor.%s at %s", engine.FuncName(f), o.Name(), engine.FieldAddrVar(fa).Name(), p.Pos(in.Pos())))
+								}
+								if g, ok := c.Args[0].(*ssa.Global); ok && g.Pkg != nil && strings.HasPrefix(g.Pkg.Pkg.Path(), engine.ModPath) {
+									bad = append(bad, fmt.Sprintf("%s calls %s on package variable %s at %s", engine.FuncName(f), o.Name(), g.Name(), p.Pos(in.Pos())))
+								}
+							}
+						}
+					}
+				}
+			}
+		}
+	}
+	if len(bad) > 0 {
+		return false, strings.Join(bad, "; "), n
+	}
+	return true, "", n
+}
+
+// bindOnceRule: a service name is bound to at most one socket. In each of the three binding
+// functions the registration (the NewPacketConn* call or the direct registry store) is unreachable
+// when the name is reserved or already registered, and lookup and registration are one
+// listenerLock write section.
+func bindOnceRule(r *engine.Report, p *engine.Program, rule string) {
+	reg := p.Field("netceptor", "Netceptor", "listenerRegistry")
+	res := p.Field("netceptor", "Netceptor", "reservedServices")
+	ll := p.Field("netceptor", "Netceptor", "listenerLock")
+	if reg == nil || res == nil || ll == nil {
+		r.Broken("listener registry anchors not found")
+		return
+	}
+	for _, name := range []string{"(*netceptor.Netceptor).ListenPacket", "(*netceptor.Netceptor).ListenPacketAndAdvertise", "(*netceptor.Netceptor).listen"} {
+		fn := p.Func(name)
+		if fn == nil {
+			r.Broken("%s not found", name)
+			continue
+		}
+		var lookups []ssa.Instruction
+		var hits []engine.Edge
+		for _, f := range []*types.Var{reg, res} {
+			for _, a := range engine.FieldAccessesIn(fn, f) {
+				if lk, ok := a.Instr.(*ssa.Lookup); ok && lk.CommaOk {
+					lookups = append(lookups, lk)
+					h, _ := engine.CondEdges(fn, func(c ssa.Value) (bool, bool) {
+						e, isE := c.(*ssa.Extract)
+						return isE && e.Tuple == ssa.Value(lk) && e.Index == 1, true
+					})
+					hits = append(hits, h...)
+				}
+			}
+		}
+		var binds []ssa.Instruction
+		for _, ci := range engine.CallsIn(fn) {
+			if engine.IsCallTo(ci.Common(), "netceptor.NewPacketConn", "netceptor.NewPacketConnWithConst") {
+				binds = append(binds, ci)
+			}
+		}
+		for _, a := range engine.FieldAccessesIn(fn, reg) {
+			if a.Kind == engine.AccMapUpdate {
+				binds = append(binds, a.Instr)
+			}
+		}
+		ok, why := len(lookups) >= 2 && len(hits) >= 2 && len(binds) > 0, fmt.Sprintf("found %d lookup(s), %d registration site(s)", len(lookups), len(binds))
+		if ok {
+			isBind := func(in ssa.Instruction) bool { return isOneOf(in, binds) }
+			for _, e := range hits {
+				if reachFromEdge(fn, e, nil, nil, isBind) != nil {
+					ok, why = false, "the registration is reachable although the name is reserved or already registered: a second socket takes over the name and the first one silently stops receiving"
+				}
+			}
+		}
+		if ok {
+			ok, why = atomicSection(p, fn, ll, lookups, binds)
+		}
+		r.Check(rule, engine.FuncName(fn)+": a reserved or already bound service name is refused, atomically with the registration", fn.Pos(), ok,
+			"from the hit edge of the reservedServices / listenerRegistry lookups the registration is unreachable; lookups and registration run in one listenerLock write section", why)
+	}
+}
